@@ -506,6 +506,8 @@ V('M-reverse-insertion', ['C04', 'C19'], 'A10.order', UN, "            enumerate
 V('M-sort-insertion', ['C19'], 'A10.order', UN, "            enumerate(sorted(self.components,\n                             key=key, reverse=reverse)))", "            enumerate(sorted(self._componentValues.values(),\n                             key=key, reverse=reverse)))")
 V('M-sortkey-nested-static', ['C03', 'C17'], 'A9.dyn', DE, "                # TODO: support nested CHOICE ordering\n                return asn1Spec[names[0]].tagSet[-1:]", "                chosenSpec = asn1Spec[names[0]]\n\n                if chosenSpec.typeId == univ.Choice.typeId and not chosenSpec.tagSet:\n                    return chosenSpec.componentType.minTagSet[-1:]\n\n                return chosenSpec.tagSet[-1:]")
 
+V('M-chunk-characters', ['C01', 'C02'], 'A7.unit', BE, "            chunk = octets[pos:pos + maxChunkSize]", "            chunk = value[pos:pos + maxChunkSize]")
+
 # --------------------------------------------------------------------------- runner
 
 def _copy_tree(repo, dest):
